@@ -83,3 +83,11 @@ chk('C10', 'model_checking',
     'segments are coincident or at least d/10 apart. Scenes: corridor family (width 0..40 x 2..4 connectors x option/distance combinations) and seeded random scenes with checkpoints.',
     'Known findings F13 (option moves endpoints/checkpoints), F25 (nudging assertion), F26 (checkpoint excursion dropped from the displayed route). Channel rule conservative: room for k+1 spacings.',
     'TLA+ declarative nudging specification; record validation of raw/displayed route pairs', '4/C10')
+
+chk('C15', 'model_checking',
+    'Lifecycle.tla models the ownership protocol of libavoid at object granularity (shapes, pins, junctions, connectors: unborn/queued/live/dying/freed; connector ends, pins and hyperedge registrations as references; '
+    'documented preconditions as enabling conditions; transactions on/off). TLC checks for all legal histories to a depth that no reference to a freed object exists in any state. Histories are behaviours of the '
+    'specification (TLC simulation) replayed on an ASan+UBSan+LSan build of the real library; every completed execution is trace-validated against Lifecycle (each call an enabled action, live object sets equal at every '
+    'processing point); an execution that ends in a failed assertion, sanitizer report, crash or non-termination is rejected and reported.',
+    'Memory errors / UB below object level are seen by the sanitizers on the replayed histories, not by the specification; libavoid only (2 shapes, 1 junction, 3 connectors). F10 and F27 are known findings; F16 was repaired (fix: commit).',
+    'TLA+ object-lifecycle protocol; TLC-generated API histories replayed on a sanitizer build; trace validation', '4/C15')
